@@ -154,6 +154,9 @@ func (o *oracle) onWrite(wr store.Write) {
 				w.r.Probe("reclaim_of_foreign_empty_block_started")
 				w.reclaiming[wr.Actor] = cidr // the Stall hook slows this reclaimer down before it deletes the block
 			}
+			if state == string(model.StatePendingDeletion) && act.host == k.Host && (act.cur.kind == opReleaseAffinity || act.cur.kind == opReleaseHostAffinities) {
+				w.relMarked[wr.Actor] = true // the fault policy may interrupt this release before its next write
+			}
 			if o.affState(key) == string(model.StatePendingDeletion) && state == string(model.StatePending) && act.host == k.Host {
 				w.r.Probe("owner_revives_claim_marked_for_deletion")
 			}
@@ -182,14 +185,28 @@ func (o *oracle) checkCap(host, cidr string, wr store.Write, seq int) {
 	is4 := !strings.Contains(cidr, ":")
 	total, usable := 0, 0
 	var held []string
-	for _, key := range sortedAffKeys(o.aff) {
-		// only confirmed claims are ownership; a pending or being-deleted claim (e.g. one that lost a race and
-		// could not be cleaned up) is documented as "treat as absent"
-		if !strings.HasPrefix(key, "host:"+host+"|") || o.affState(key) != string(model.StateConfirmed) {
-			continue
+	// A host HOLDS the blocks whose own record names it as their affinity (whatever state the claim row is in: a
+	// release that stopped after marking the row pendingDeletion has not given the block up), plus the blocks of
+	// its confirmed claims.  A pending claim without such a block (one that lost a race and could not be cleaned
+	// up) is documented as "treat as absent".
+	heldSet := map[string]bool{}
+	for _, c := range sortedBlockKeys(o.blocks) {
+		if o.blocks[c].affinity == "host:"+host {
+			heldSet[c] = true
 		}
-		c := key[len("host:"+host+"|"):]
-		if is4 != !strings.Contains(c, ":") {
+	}
+	for _, key := range sortedAffKeys(o.aff) {
+		if strings.HasPrefix(key, "host:"+host+"|") && o.affState(key) == string(model.StateConfirmed) {
+			heldSet[key[len("host:"+host+"|"):]] = true
+		}
+	}
+	var heldBlocks []string
+	for c := range heldSet {
+		heldBlocks = append(heldBlocks, c)
+	}
+	sort.Strings(heldBlocks)
+	for _, c := range heldBlocks {
+		if c == cidr || is4 != !strings.Contains(c, ":") {
 			continue
 		}
 		total++
